@@ -2,8 +2,7 @@ import GrVerif.Model.Seg
 /-!
 # Final positioning   (C15, C03, C06)
 
-`Segment::positionSlots` and `Slot::finalise` / `Slot::floodShift` (`src/Segment.cpp`, `src/Slot.cpp`) for a left-to-right
-run, an unhinted font (or none), no collision information and no justification: every slot's origin and the advance of the
+`Segment::positionSlots` and `Slot::finalise` / `Slot::floodShift` (`src/Segment.cpp`, `src/Slot.cpp`) for an unhinted font (or none), no collision information and no justification: every slot's origin and the advance of the
 run, as exact rationals.  `k` is the font's scale (`ppm / upem`; 1 when no font is given); all attributes are design units.
 -/
 namespace GrVerif.Pos
@@ -32,9 +31,13 @@ def floodShift (seg : Seg) (adj : P) : Nat → Nat → St → St
     | some b => floodShift seg adj fuel b st
     | none => st
 
+/-- `m_shift.x * (rtl * -2 + 1)` -/
+def _root_.GrVerif.Seg.Slot.shiftDir (sl : Slot) (rtl : Bool) : Int := if rtl then -sl.shiftX else sl.shiftX
+
 /-- the slot's own origin: `(result so far, origin, clusterMin)` from the base point – the first part of `Slot::finalise` -/
-def place (sl : Slot) (k : Rat) (base : P) (cm : Rat) : P × P × Rat :=
-  let shift : P := (k * sl.shiftX, k * sl.shiftY)
+def place (sl : Slot) (k : Rat) (base : P) (cm : Rat) (rtl : Bool := false) : P × P × Rat :=
+  -- `Position shift(m_shift.x * (rtl * -2 + 1) + m_just, m_shift.y)`
+  let shift : P := (k * sl.shiftDir rtl, k * sl.shiftY)
   let tAdvance : Rat := k * sl.advX
   let pos : P := P.add base shift
   match sl.parent with
@@ -77,22 +80,23 @@ def siblingStage (seg : Seg) (sl : Slot) (s : Nat) (base : P) (r1 : P × St) (re
     else r1
   | _, _ => r1
 
-/-- `Slot::finalise(seg, font, base, bbox, 0, clusterMin, rtl = false, isFinal = true, depth)` -/
-def finalise (seg : Seg) (k : Rat) : Nat → Nat → P → St → P × St
+/-- `Slot::finalise(seg, font, base, bbox, 0, clusterMin, rtl, isFinal = true, depth)` -/
+def finalise (seg : Seg) (k : Rat) (rtl : Bool := false) : Nat → Nat → P → St → P × St
   | 0, _, _, st => ((0, 0), st)
   | fuel + 1, s, base, st =>
     let sl := seg.get s
-    let pl := place sl k base st.clusterMin
+    let pl := place sl k base st.clusterMin rtl
     let st := ({ st with clusterMin := pl.2.2 } : St).setPos s pl.2.1
-    let r1 := childStage seg sl s pl.1 pl.2.1 st (fun c b t => finalise seg k fuel c b t)
-    let r2 := siblingStage seg sl s base r1 (fun c b t => finalise seg k fuel c b t)
+    let r1 := childStage seg sl s pl.1 pl.2.1 st (fun c b t => finalise seg k rtl fuel c b t)
+    let r2 := siblingStage seg sl s base r1 (fun c b t => finalise seg k rtl fuel c b t)
     adjustCluster seg sl s base r2.1 r2.2
 
-/-- `Segment::positionSlots(font, first, last, isRtl = false)` over the stream `l`: origins and the run's advance -/
-def positionSlots (seg : Seg) (k : Rat) (l : List Nat) : P × St :=
-  l.foldl (fun (acc : P × St) s =>
+/-- `Segment::positionSlots(font, first, last, isRtl)` over the stream `l` (already in the direction `isRtl` asks for): origins
+and the run's advance; a right-to-left run is walked from its last slot back -/
+def positionSlots (seg : Seg) (k : Rat) (l : List Nat) (rtl : Bool := false) : P × St :=
+  (if rtl then l.reverse else l).foldl (fun (acc : P × St) s =>
     if (seg.get s).parent.isNone then
-      finalise seg k 101 s acc.1 { acc.2 with clusterMin := acc.1.1 }
+      finalise seg k rtl 101 s acc.1 { acc.2 with clusterMin := acc.1.1 }
     else acc) ((0, 0), { pos := Array.replicate seg.slots.size (0, 0), clusterMin := 0 })
 
 end GrVerif.Pos
